@@ -6,6 +6,7 @@
 // drained and every value pushed in that round must come out exactly once (no loss, duplicate, invented value).
 // usage: e0_fifo_churn <rounds> <pushers> <per_pusher>
 //        e0_fifo_churn bulk <rounds> <consumers> <items> <producers>   (batch consumers on the raw third-party queue, see bulk_main)
+//        e0_fifo_churn token <rounds> <items>                          (producer-token sub-queues of the raw queue, see token_main)
 #include <pika/concurrency/concurrentqueue.hpp>
 #include <pika/schedulers/lockfree_queue_backends.hpp>
 
@@ -114,11 +115,104 @@ static int bulk_main(int rounds, int consumers, long items, int producers)
     return 0;
 }
 
+// "token": the producer-token API of the third-party queue (explicit producers; pika's back-ends use the implicit
+// producers only, but the header is pika's container).  Part 1, single-threaded and deterministic: with one token, enqueue a
+// block's worth, dequeue it completely, then enqueue a backlog several blocks long (re-use of fully drained blocks) and
+// drain: every value exactly once and in FIFO order (one producer).  Part 2: a token producer with growing bursts and a
+// concurrent consumer (plain and token-directed pops).  Verdict from values only.
+static int token_main(int rounds, long items)
+{
+    using queue_type = pika::concurrency::detail::ConcurrentQueue<std::uint64_t>;
+    long lost = 0, dup = 0, invented = 0, order = 0, bad_rounds = 0, total = 0;
+    for (int r = 0; r < rounds; ++r)
+    {
+        long l = 0, d = 0, inv = 0, ord = 0;
+        {
+            queue_type q;
+            pika::concurrency::detail::ProducerToken tok(q);
+            std::uint64_t next = 0, expect = 0, v = 0;
+            // drain k completely after every burst of `burst` values, with bursts of 1 .. 4 blocks (block size 32)
+            for (int step = 0; step < 12; ++step)
+            {
+                long burst = 32L * (1 + (step + r) % 4) + (step % 3);
+                for (long i = 0; i < burst; ++i) q.enqueue(tok, next++);
+                long take = (step % 2 == 0) ? burst : burst / 2;    // sometimes leave a backlog behind
+                for (long i = 0; i < take && q.try_dequeue(v); ++i)
+                {
+                    if (v != expect) { ++ord; if (v < expect) ++d; else l += long(v - expect); expect = v + 1; }
+                    else ++expect;
+                }
+            }
+            while (q.try_dequeue(v))
+            {
+                if (v != expect) { ++ord; if (v < expect) ++d; else l += long(v - expect); expect = v + 1; }
+                else ++expect;
+            }
+            if (expect < next) l += long(next - expect);
+            total += long(next);
+        }
+        {
+            queue_type q;
+            std::unique_ptr<std::atomic<unsigned char>[]> seen(new std::atomic<unsigned char>[std::size_t(items)]);
+            for (long i = 0; i < items; ++i) seen[std::size_t(i)].store(0, std::memory_order_relaxed);
+            std::atomic<bool> done{false};
+            std::atomic<long> invc{0};
+            auto rec = [&](std::uint64_t v) {
+                if (v >= std::uint64_t(items)) invc.fetch_add(1);
+                else seen[std::size_t(v)].fetch_add(1, std::memory_order_relaxed);
+            };
+            std::thread prod([&] {
+                pika::concurrency::detail::ProducerToken tok(q);
+                long i = 0;
+                int burst = 8;
+                while (i < items)
+                {
+                    for (int k = 0; k < burst && i < items; ++k, ++i) q.enqueue(tok, std::uint64_t(i));
+                    burst = burst >= 100 ? 8 : burst + 7;
+                    for (int sp = 0; sp < 200; ++sp) asm volatile("pause");
+                }
+                done.store(true);
+            });
+            std::thread cons([&] {
+                std::uint64_t v = 0;
+                int empty_after_done = 0;
+                while (empty_after_done < 1000)
+                {
+                    bool dn = done.load();
+                    if (q.try_dequeue(v)) { rec(v); empty_after_done = 0; }
+                    else if (dn) ++empty_after_done;
+                }
+            });
+            prod.join();
+            cons.join();
+            std::uint64_t v = 0;
+            while (q.try_dequeue(v)) rec(v);
+            for (long i = 0; i < items; ++i)
+            {
+                unsigned char c = seen[std::size_t(i)].load(std::memory_order_relaxed);
+                if (c == 0) ++l;
+                else if (c > 1) ++d;
+            }
+            inv += invc.load();
+            total += items;
+        }
+        lost += l; dup += d; invented += inv; order += ord;
+        if (l || d || inv || ord) ++bad_rounds;
+    }
+    if (bad_rounds)
+        std::printf("churn FAIL token rounds=%d bad_rounds=%ld pushed=%ld lost=%ld duplicated=%ld invented=%ld out_of_order=%ld\n", rounds, bad_rounds,
+            total, lost, dup, invented, order);
+    else
+        std::printf("churn ok token rounds=%d pushed=%ld\n", rounds, total);
+    return 0;
+}
+
 int main(int argc, char** argv)
 {
     std::signal(SIGSEGV, on_crash);
     std::signal(SIGBUS, on_crash);
     std::signal(SIGABRT, on_crash);
+    if (argc > 1 && std::string(argv[1]) == "token") return token_main(argc > 2 ? std::atoi(argv[2]) : 3, argc > 3 ? std::atol(argv[3]) : 20000);
     if (argc > 1 && std::string(argv[1]) == "bulk")
         return bulk_main(argc > 2 ? std::atoi(argv[2]) : 4, argc > 3 ? std::atoi(argv[3]) : 6, argc > 4 ? std::atol(argv[4]) : 100000,
             argc > 5 ? std::atoi(argv[5]) : 1);
